@@ -175,6 +175,9 @@ def explore(harness, cfg, known=(), workers=None, deadline_s=None, max_paths=Non
 
     ex = ProcessPoolExecutor(max_workers=workers, mp_context=mp.get_context("fork"))
     stall_s = float(os.environ.get("VERIF_STALL_S", "900"))
+    start_s = float(os.environ.get("VERIF_POOL_START_S", "240"))
+    pending = {}  # future -> prefix (to resubmit the work of a pool that never came up)
+    first_done, restarts, pool_t0 = False, 0, time.time()
     try:
         inflight = set()
         last_progress = time.time()
@@ -191,16 +194,36 @@ def explore(harness, cfg, known=(), workers=None, deadline_s=None, max_paths=Non
             while work and len(inflight) < workers * 3:
                 p = work.pop()
                 budget = 4 if len(work) + len(inflight) < workers * 4 else 40
-                inflight.add(ex.submit(_work, (p, budget, len(total.samples) < 6)))
+                fut = ex.submit(_work, (p, budget, len(total.samples) < 6))
+                pending[fut] = p
+                inflight.add(fut)
             done, inflight = wait(inflight, timeout=5, return_when=FIRST_COMPLETED)
             if not done:
+                if not first_done and restarts < 2 and time.time() - pool_t0 > start_s:
+                    # not one task of this pool has come back: its workers may have dead-locked at fork time
+                    # (a fork taken while another thread held a lock).  Paths are deterministic functions of
+                    # their decision prefix: discard the pool and resubmit the same prefixes to a fresh one.
+                    restarts += 1
+                    for pr in list((getattr(ex, "_processes", None) or {}).values()):
+                        try:
+                            pr.kill()
+                        except Exception:
+                            pass
+                    ex.shutdown(wait=False, cancel_futures=True)
+                    work.extend(pending[f] for f in inflight)
+                    inflight, pending = set(), {}
+                    ex = ProcessPoolExecutor(max_workers=workers, mp_context=mp.get_context("fork"))
+                    pool_t0 = last_progress = time.time()
+                    continue
                 if time.time() - last_progress > stall_s:
                     info["truncated"] = f"no task finished for {stall_s:.0f}s"
                     total.errors.append(dict(status="error", err=info["truncated"], decisions=[]))
                     break
                 continue
             last_progress = time.time()
+            first_done = True
             for r in done:
+                pending.pop(r, None)
                 try:
                     a, rest = r.result()
                 except BrokenProcessPool as e:
@@ -215,16 +238,21 @@ def explore(harness, cfg, known=(), workers=None, deadline_s=None, max_paths=Non
             info["exhaustive"] = not total.errors
     finally:
         procs = list((getattr(ex, "_processes", None) or {}).values())
-        if os.environ.get("VERIF_GRACEFUL"):
-            ex.shutdown(wait=True, cancel_futures=True)  # let workers exit normally (coverage measurement)
-            procs = []
+        mgr = getattr(ex, "_executor_manager_thread", None)
+        if os.environ.get("VERIF_GRACEFUL") or not inflight:
+            # nothing is running any more: let the workers exit normally and JOIN the executor's threads.  (A
+            # lingering manager / queue-feeder thread of this pool can hold a lock at the moment the next
+            # explore() forks its workers, which then dead-lock at start-up.)
+            ex.shutdown(wait=True, cancel_futures=True)
         else:
             ex.shutdown(wait=False, cancel_futures=True)
-        for pr in procs:
-            try:
-                pr.terminate()
-            except Exception:
-                pass
+            for pr in procs:
+                try:
+                    pr.terminate()
+                except Exception:
+                    pass
+            if mgr is not None:
+                mgr.join(timeout=20)
     info["wall_s"] = time.time() - t0
     return total, info
 
